@@ -268,7 +268,10 @@ def check_deserialize(ctx):
                                                         (b"\x00" * 4, b"\x80\x00\x00\x00"), (b"\x00", b"\x01", b"\x02", b"\x03", b"\x04")):
         if L != 78 and (ver, dep, fpv, ch, pre) != (VPRV_M, b"\x01", b"\x00" * 4, b"\x00" * 4, b"\x00"):
             continue
-        ev.bind = {tm.length(D): L, sl["version"]: ver, sl["depth"]: dep, sl["fp"]: fpv, sl["child"]: ch, sl["prefix"]: pre}
+        # the decoded payload has a known structure: concrete version / depth / fingerprint / child number / key prefix,
+        # arbitrary chain code and key body; slicing, struct.unpack, ... all cut through it
+        chain_b, body_b = tm.sized("chain", 32), tm.sized("keybody", L - 46)
+        ev.bind = {D: tm.cat([ver, dep, fpv, ch, chain_b, pre, body_b])}
         s = ev.run(fi, {"return_dict": False})
         kind, val = rules.outcome(s)
         public = ver in (VPUB_M, VPUB_T)
@@ -278,9 +281,9 @@ def check_deserialize(ctx):
         ok = (kind == "return") == legal
         if ok and legal:
             keyterm = val[5] if isinstance(val, (list, tuple)) and len(val) == 6 else None
-            wantkey = tm.app("bits.utils.point", [tm.slc(D, 45, None)], ty=tm.TUPLE) if public else tm.app("bits.utils.privkey_int", [tm.slc(D, 46, None)], ty=tm.INT)
+            wantkey = tm.app("bits.utils.point", [tm.cat([pre, body_b])], ty=tm.TUPLE) if public else tm.app("bits.utils.privkey_int", [body_b], ty=tm.INT)
             ok = isinstance(val, (list, tuple)) and len(val) == 6 and val[0] == ver and val[1] == dep and val[2] == fpv and val[3] == ch and \
-                tm.veq(val[4], sl["chain"]) and tm.veq(keyterm, wantkey)
+                tm.veq(val[4], chain_b) and tm.veq(keyterm, wantkey)
         if not ok:
             bad += 1
             if first_bad is None:
@@ -292,12 +295,13 @@ def check_deserialize(ctx):
     R.floor("C09.5", n, 300, "xkey_payload_classes")
     R.check("C09.5", "DOM", fi, "payload obtained from checksum-verifying Base58Check", True, "")
     # return_dict mode reports the same fields
-    ev.bind = {tm.length(D): 78, sl["version"]: VPRV_M, sl["depth"]: b"\x01", sl["prefix"]: b"\x00"}
+    fp_b, ch_b, chain_b, body_b = tm.sized("fingerprint", 4), tm.sized("child", 4), tm.sized("chain", 32), tm.sized("keybody", 32)
+    ev.bind = {D: tm.cat([VPRV_M, b"\x01", fp_b, ch_b, chain_b, b"\x00", body_b])}
     s = ev.run(fi, {"return_dict": True})
     kind, val = rules.outcome(s)
-    okd = kind == "return" and isinstance(val, dict) and val.get("depth") == 1 and tm.veq(val.get("child_no"), tm.b2i(sl["child"], "big")) and \
-        tm.veq(val.get("parent_key_fingerprint"), tm.hexs(sl["fp"])) and tm.veq(val.get("chaincode"), tm.hexs(sl["chain"])) and \
-        tm.veq(val.get("key"), tm.hexs(be(tm.app("bits.utils.privkey_int", [tm.slc(D, 46, None)], ty=tm.INT), 32)))
+    okd = kind == "return" and isinstance(val, dict) and val.get("depth") == 1 and tm.veq(val.get("child_no"), tm.b2i(ch_b, "big")) and \
+        tm.veq(val.get("parent_key_fingerprint"), tm.hexs(fp_b)) and tm.veq(val.get("chaincode"), tm.hexs(chain_b)) and \
+        tm.veq(val.get("key"), tm.hexs(be(tm.app("bits.utils.privkey_int", [body_b], ty=tm.INT), 32)))
     R.check("C09.5", "TILE", fi, "return_dict reports the same fields", okd, "dict form: %s" % tm.show(val)[:300])
     ev.bind = {}
 
